@@ -775,6 +775,8 @@ class Tensor:
         try:
             if out is not None:
                 kwargs["out"] = caster(out)
+            if isinstance(kwargs.get("where"), Tensor):
+                kwargs["where"] = kwargs["where"].data
             # returns ndarray
             return getattr(ufunc, method)(*(caster(t) for t in inputs), **kwargs)
         except _ConstantOnly:
